@@ -352,7 +352,8 @@ def _line_start_or(s, pos):
 
 
 def expand_macro_call(rel, name, nth, within=None):
-    """R22: the nth invocation `name!( .. )` of a local single-arm `macro_rules! name` in `rel` is expanded textually,
+    """R22: the nth invocation `name!( .. )` of a local `macro_rules! name` in `rel` is expanded textually (first arm whose
+    pattern matches, as rustc does),
     the way rustc does for this shape: fragment variables `$x` (ident / expr / literal / ty) are substituted by the
     comma-separated arguments, a trailing `$($v:tt)*` takes the rest, `paste::item! { .. }` is unwrapped and its
     `[<a $x b>]` groups are concatenated into one identifier.  Returns (text, line of the invocation)."""
@@ -368,28 +369,21 @@ def expand_macro_call(rel, name, nth, within=None):
         raise WeaveError(f"{rel}: macro_rules! {name} not found")
     ob = d + 3
     cb = match_close(toks, ob)
-    po = ob + 1
-    if toks[po].text != "(":
-        raise WeaveError(f"{rel}: macro_rules! {name}: unsupported arm shape")
-    pc = match_close(toks, po)
-    params, k = [], po + 1
-    while k < pc:
-        if texts[k] == "$" and texts[k + 1] == "(":
-            # $($v:tt)*  -- the rest
-            params.append(("rest", texts[k + 3]))
-            k = match_close(toks, k + 1) + 2
-        elif texts[k] == "$":
-            params.append(("one", texts[k + 1]))
-            k += 4          # $ name : kind
-        else:
-            k += 1          # separator
-    arrow = pc + 1
-    while texts[arrow] != "{":
-        arrow += 1
-    bo, bc = arrow, match_close(toks, arrow)
-    if bc + 1 < cb and texts[bc + 1] == ";" and bc + 2 < cb:
-        raise WeaveError(f"{rel}: macro_rules! {name} has more than one arm")
-    body = src[toks[bo].end:toks[bc].start]
+    # all arms: ( pattern ) => { body } ;
+    arms, k = [], ob + 1
+    while k < cb:
+        if toks[k].text != "(":
+            k += 1
+            continue
+        pc = match_close(toks, k)
+        bo = pc + 1
+        while texts[bo] != "{":
+            bo += 1
+        bc = match_close(toks, bo)
+        arms.append((k, pc, bo, bc))
+        k = bc + 1
+    if not arms:
+        raise WeaveError(f"{rel}: macro_rules! {name}: no arm found")
     # --- the invocation
     lo, hi = 0, len(toks)
     if within:
@@ -411,26 +405,59 @@ def expand_macro_call(rel, name, nth, within=None):
     if inv is None:
         raise WeaveError(f"{rel}: invocation {nth} of {name}! not found")
     ao, ac = inv + 2, match_close(toks, inv + 2)
-    args, dep, cur = [], 0, ao + 1
-    for k in range(ao + 1, ac):
-        tx = texts[k]
-        if toks[k].kind == "punct" and tx in "([{":
-            dep += 1
-        elif toks[k].kind == "punct" and tx in ")]}":
-            dep -= 1
-        elif tx == "," and dep == 0 and len(args) < len(params) - 1:
-            args.append(src[toks[cur].start:toks[k - 1].end].strip())
-            cur = k + 1
-    last = src[toks[cur].start:toks[ac - 1].end].strip() if cur < ac else ""
-    args.append(re.sub(r"\s+", "", last) if params and params[-1][0] == "rest" else last)
-    if len(args) != len(params):
-        raise WeaveError(f"{rel}: {name}! invocation {nth}: {len(args)} arguments for {len(params)} parameters")
-    out = body
-    for (kind, pn), a in zip(params, args):
-        if kind == "rest":
-            out = re.sub(r"\$\(\s*\$" + pn + r"\s*\)\s*\*", lambda m_: a, out)
+
+    def try_arm(po, pc):
+        """match the invocation tokens ao+1..ac against the arm's pattern po+1..pc; returns {var: text} or None"""
+        binds, it, pk = {}, ao + 1, po + 1
+        while pk < pc:
+            if texts[pk] == "$" and texts[pk + 1] == "(":
+                # $($v:tt)* : the rest of the invocation
+                binds[("rest", texts[pk + 3])] = re.sub(r"\s+", "", src[toks[it].start:toks[ac - 1].end]) if it < ac else ""
+                it = ac
+                pk = match_close(toks, pk + 1) + 2
+            elif texts[pk] == "$":
+                var, fk = texts[pk + 1], texts[pk + 3]
+                if it >= ac:
+                    return None
+                if fk == "ident":
+                    if toks[it].kind != "id":
+                        return None
+                    end = it + 1
+                else:
+                    dep, end = 0, it
+                    while end < ac:
+                        tx = texts[end]
+                        if toks[end].kind == "punct" and tx in "([{":
+                            dep += 1
+                        elif toks[end].kind == "punct" and tx in ")]}":
+                            dep -= 1
+                        elif tx == "," and dep == 0:
+                            break
+                        end += 1
+                binds[("one", var)] = src[toks[it].start:toks[end - 1].end].strip()
+                it = end
+                pk += 4
+            else:
+                if it >= ac or texts[it] != texts[pk]:
+                    return None
+                it += 1
+                pk += 1
+        return binds if it == ac else None
+
+    chosen = None
+    for (po, pc, bo, bc) in arms:
+        bnd = try_arm(po, pc)
+        if bnd is not None:
+            chosen = (bnd, src[toks[bo].end:toks[bc].start])
+            break
+    if chosen is None:
+        raise WeaveError(f"{rel}: {name}! invocation {nth} matches no arm of the macro")
+    bnd, out = chosen
+    for (kind_, pn), a_ in bnd.items():
+        if kind_ == "rest":
+            out = re.sub(r"\$\(\s*\$" + pn + r"\s*\)\s*\*", lambda m_, a_=a_: a_, out)
         else:
-            out = re.sub(r"\$" + pn + r"\b", lambda m_: a, out)
+            out = re.sub(r"\$" + pn + r"\b", lambda m_, a_=a_: a_, out)
     # paste::item! { .. } -> its contents, with [< .. >] groups glued
     m = re.search(r"paste::item!\s*\{", out)
     if m:
@@ -497,6 +524,17 @@ def weave_item(hdr, subs, stats):
             ot.replace(i, i + len(old), new)
             pos = i + len(new)
         log.append({"rule": d["rule"], "before": old, "after": new, "count": n})
+    # R10 (automatic): Verus rejects the wildcard closure parameter `|_|`; it is renamed `|_e|` wherever it occurs
+    if kind == "fn" and re.search(r"\|\s*_\s*\|", ot.s):
+        n10 = len(re.findall(r"\|\s*_\s*\|", ot.s))
+        pos = 0
+        while True:
+            m10 = re.search(r"\|\s*_\s*\|", ot.s[pos:])
+            if not m10:
+                break
+            ot.replace(pos + m10.start(), pos + m10.end(), "|_e|")
+            pos += m10.start() + 4
+        log.append({"rule": "R10 wildcard closure parameter renamed", "before": "|_|", "after": "|_e|", "count": n10})
     for d in subs:
         if d["op"] == "receiver":
             tk = tokenize(ot.s)
